@@ -154,4 +154,85 @@ theorem export_segmentation_independent (mask : Quic.Dissect.MaskFn) (H : Crypto
       rw [g2]; rfl
     rw [← this, ← hdsb]; rfl
 
+/-! ## C09 -/
+
+section C09
+open TLX.Keylog TLX.Spec.NssKeylog TLX.Lemmas.Keylog TLX.Lemmas.ExportProps
+
+/-- **C09, one connection**: two key logs that install the same TLS secrets for every client random
+    (`SameTlsSecrets`: `Keylog.installed12 .firstMaster` and `Keylog.installed13` agree) give the same export of every
+    connection — the key log enters `Session.decrypt()` through `generate_keys` only (`genKeys_of_installed`). -/
+theorem connOut_keylog_independent (H : Crypto.Prims) (P : Cipher.Prims) (info : Nat → Pipeline.Info) (c : Pipeline.Conn)
+    (kl1 kl2 : List Key) (h : SameTlsSecrets kl1 kl2) :
+    Pipeline.connOut H P info c kl1 = Pipeline.connOut H P info c kl2 :=
+  connOut_of_installed H P info c kl1 kl2 h
+
+/-- **C09, all TLS conversations of a run**: two `-s` key logs that install the same TLS secrets — with whatever DSBs
+    the capture holds behind them — give the same frames for every TLS conversation -/
+theorem tlsFrames_keylog_independent (H : Crypto.Prims) (P : Cipher.Prims) (info : Nat → Pipeline.Info) (o : Opts)
+    (fk1 fk2 : Option (List Key)) (xs : List (MainLoop.Item Key)) (h : SameTlsSecrets (fk1.getD []) (fk2.getD [])) :
+    tlsFrames H P info o fk1 xs = tlsFrames H P info o fk2 xs := by
+  unfold tlsFrames
+  apply List.map_congr_left
+  intro s _
+  unfold convFrames keysOf
+  rw [connOut_keylog_independent H P info s.st _ _ (sameTlsSecrets_append _ _ (dsbOnly xs) h)]
+
+/-- **C09, whole program** (`export_keylog_denotation_independent`): two runs on the same capture with the same options and
+    two `-s` key logs that install the same TLS secrets: the TLS part of what `run()` hands to the writer — the frames of
+    all TLS conversations, in order — is the same; what follows it is the QUIC part of each run (QUIC reads the key log
+    through its own lookup, `Keylog.installedQuic`; not covered here). -/
+theorem export_keylog_denotation_independent (mask : Quic.Dissect.MaskFn) (H : Crypto.Prims) (P : Cipher.Prims)
+    (info : Nat → Pipeline.Info) (prior : Export.Prior) (args : Args) (o : Opts)
+    (ho : TLX.Lemmas.ExportProps.optsOf args = some o)
+    (fk1 fk2 : Option (List Key)) (xs : List (MainLoop.Item Key)) (h : SameTlsSecrets (fk1.getD []) (fk2.getD [])) :
+    ∃ quic1 quic2,
+      framesFrom mask H P prior args fk1 xs info = .ok ((tlsFrames H P info o fk1 xs).flatten ++ quic1) ∧
+      framesFrom mask H P prior args fk2 xs info = .ok ((tlsFrames H P info o fk1 xs).flatten ++ quic2) := by
+  obtain ⟨q1, e1⟩ := framesFrom_ok mask H P info prior args fk1 xs o ho
+  obtain ⟨q2, e2⟩ := framesFrom_ok mask H P info prior args fk2 xs o ho
+  rw [← tlsFrames_keylog_independent H P info o fk1 fk2 xs h] at e2
+  exact ⟨q1, q2, e1, e2⟩
+
+/-- what C09 (`Props.C09.keys_invariant_under_delivery_global`) gives for two key-log FILES read in text mode: well
+    formed, the same set of (label, client random, secret) triples, consistent (one secret per label and client random),
+    every CR followed by LF ⇒ the same TLS secrets for every client random. Permutation of the lines, duplication,
+    comments and foreign lines, hex-digit case, LF vs CRLF are all covered. -/
+theorem sameTlsSecrets_of_texts (t1 t2 : Str) (wf1 : WellFormed t1) (wf2 : WellFormed t2) (heq : Equivalent t1 t2)
+    (hcons : Consistent t1) (c1 : CrOk t1) (c2 : CrOk t2) :
+    SameTlsSecrets ((fileKeysOf (some t1)).getD []) ((fileKeysOf (some t2)).getD []) := by
+  intro cr
+  have e : ∀ t, CrOk t → (fileKeysOf (some t)).getD [] = getKeysFromString .any t := by
+    intro t ht
+    show getKeysFromString Keylog.srcHexClass (universalNewlines t) = _
+    rw [Props.C09Found.srcHexClass_any]
+    exact Props.C09.file_text_mode_irrelevant .any t ht
+  rw [e t1 c1, e t2 c2]
+  have := Props.C09.keys_invariant_under_delivery_global t1 t2 wf1 wf2 heq hcons cr
+  exact ⟨congrArg Installed.tls12 this, congrArg Installed.tls13 this⟩
+
+/-- **C09, whole program, key-log files as text.** -/
+theorem export_keylog_text_independent (mask : Quic.Dissect.MaskFn) (H : Crypto.Prims) (P : Cipher.Prims)
+    (info : Nat → Pipeline.Info) (prior : Export.Prior) (args : Args) (o : Opts)
+    (ho : TLX.Lemmas.ExportProps.optsOf args = some o)
+    (t1 t2 : Str) (wf1 : WellFormed t1) (wf2 : WellFormed t2) (heq : Equivalent t1 t2)
+    (hcons : Consistent t1) (c1 : CrOk t1) (c2 : CrOk t2) (xs : List (MainLoop.Item Key)) :
+    ∃ quic1 quic2,
+      framesFrom mask H P prior args (fileKeysOf (some t1)) xs info =
+        .ok ((tlsFrames H P info o (fileKeysOf (some t1)) xs).flatten ++ quic1) ∧
+      framesFrom mask H P prior args (fileKeysOf (some t2)) xs info =
+        .ok ((tlsFrames H P info o (fileKeysOf (some t1)) xs).flatten ++ quic2) :=
+  export_keylog_denotation_independent mask H P info prior args o ho _ _ xs
+    (sameTlsSecrets_of_texts t1 t2 wf1 wf2 heq hcons c1 c2)
+
+/-- **`OnlySecret` (the key-log hypothesis of `Props/C01Rfc`) follows from C09's consistency**: in a key-log file of
+    well-formed lines that is consistent for the client random, a line `label cr secret` is the only secret under that
+    label and client random — so `tls12/13_capture_exact_rfc` hold for every consistent key-log file that has the lines. -/
+theorem onlySecret_of_consistent (ls : List (Props.C09Found.FLine × Bool)) (hwf : ∀ x ∈ ls, x.1.WF) (cr : List Nat)
+    (hcons : ConsistentFor cr (Props.C09Found.fileText ls)) (label secret : List Nat)
+    (hhas : TLX.Lemmas.C01Rfc.HasLine ls label cr secret) : TLX.Lemmas.C01Rfc.OnlySecret ls label cr secret :=
+  TLX.Lemmas.ExportSeg.onlySecret_of_consistent ls hwf cr hcons label secret hhas
+
+end C09
+
 end TLX.Props.ExportSeg
